@@ -207,7 +207,7 @@ def force_k(prog):
     from opfython.models import UnsupervisedOPF
     target = k - prog["min_k"] + 1
 
-    def cut(self, n_neighbours):
+    def cut(self, n_neighbours, *more, **kw):
         calls[0] += 1
         return 0.5 if calls[0] == target else 1.0
 
